@@ -54,6 +54,7 @@ type BlockCtx struct {
 	EmCur   *big.Int
 	Voters  int
 	Updates []abci.ValidatorUpdate
+	flatPrev, flatCur map[string]string // lazily flattened exports (flatDelta)
 }
 
 // Monitor observes a run and reports violations through World.Report.
